@@ -8,15 +8,18 @@ from vplib import coqtools, harness
 META = {
     "technique": "Coq proof (invariant over arbitrary arrival histories of the JoinBuffer model incl. the std binary search, expiry queue, gc interval and per-key cap) + model/impl differential compared verbatim + brute-force oracle of the property text",
     "design_ref": "DESIGN.md §7 C15, §12 Join",
-    "level_text": "Theorems C15_* in coq/theories/Join/Props.v: for every configuration with cap >= 1 and window >= 0 and every arrival history with non-decreasing timestamps, each add_event of the model returns exactly the specified correlation (an output iff every source has a same-key arrival with ts >= t - W, built from the most recently arrived one per source); for histories outside that class the statement is refuted by three machine-checked witnesses that are replayed against the real JoinBuffer on every run; the model is tied to the Rust by a differential run on every check",
+    "level_text": "Theorems C15_* in coq/theories/Join/Props.v: for every configuration with cap >= 1 and window >= 0 and every arrival history with non-decreasing timestamps, each add_event of the model returns exactly the specified correlation (an output iff every source has a same-key arrival with ts >= t - W, built from the most recently arrived one per source); for every history in any order a produced output is the specified one (C15_any_order_sound: out-of-order arrivals can only lose outputs); for out-of-order histories the full statement is refuted by three machine-checked witnesses that are replayed against the real JoinBuffer on every run; the model is tied to the Rust by a differential run on every check",
     "level_note": "Out-of-order histories are a recorded known-finding class (ooo-history), not proved. 'Within the window' is read as ts >= t - W (the only bound the code and DESIGN.md use). Proved about the choice of events; the field merge of create_correlated_event is modelled and compared verbatim but only its per-source prefixed fields are judged by the oracle. find_common_key_field (source without configured key) is not modelled. Engine-level join programs (stream S_i = T_i; join(..).on(..).window(..).emit(..)) are driven through Engine::process and compared with the model's choice of events and the oracle; the engine's key/window extraction itself is not modelled. slice::partition_point is modelled after the toolchain's std algorithm and tied to it by direct comparison on random slices each run.",
 }
 CLASS_OOO = "ooo-history"
 
 
-def classes_of(c):
+def classes_of(c, cats=("missing",)):
+    """known-finding classes a failing input belongs to.  ooo-history: the history is not timestamp-sorted AND the only
+    thing that went wrong is a missing output (C15_any_order_sound: a produced output is right in any order, so a
+    spurious or wrong output is never excused)."""
     cl = []
-    if not J.is_sorted(c):
+    if not J.is_sorted(c) and all(k == "missing" for k in cats):
         cl.append(CLASS_OOO)
     return cl
 
@@ -65,10 +68,11 @@ def check(run):
     wit = J.witnesses()
     wans = harness.run_jsonl(binpath, [J.j_case(c) for c in wit.values()])
     for (nm, c), ans in zip(wit.items(), wans):
-        fails = J.judge(c, ans)
+        fc = J.judge_cat(c, ans)
+        fails = [m for _, m in fc]
         run.case(("witness", nm))
         if fails:
-            run.violation("%s: %s" % (nm, fails[0]), {"case": J.case_json(c), "implementation": ans}, classes=classes_of(c))
+            run.violation("%s: %s" % (nm, fails[0]), {"case": J.case_json(c), "implementation": ans}, classes=classes_of(c, [k for k, _ in fc]))
         else:
             run.extra.setdefault("witnesses_no_longer_failing", []).append(nm)
 
@@ -99,9 +103,10 @@ def check(run):
         run.count("cap=%s" % c["cap"])
         run.count("window=%d" % c["window"])
         run.count("outputs", sum(1 for o in outs if o is not None))
-        fails = J.judge(c, ans)
+        fc = J.judge_cat(c, ans)
+        fails = [m for _, m in fc]
         if fails:
-            cl = classes_of(c)
+            cl = classes_of(c, [k for k, _ in fc])
             run.count("oracle_fail" + ("_known" if cl else ""))
             if cl:
                 n_known += 1
@@ -111,7 +116,8 @@ def check(run):
                 if n_viol <= 3:
                     def still(cc):
                         a2 = harness.run_jsonl(binpath, [J.j_case(cc)])[0]
-                        return bool(J.judge(cc, a2)) and not classes_of(cc)
+                        f2 = J.judge_cat(cc, a2)
+                        return bool(f2) and not classes_of(cc, [k for k, _ in f2])
                     small = J.shrink(c, still)
                     a2 = harness.run_jsonl(binpath, [J.j_case(small)])[0]
                     run.violation("; ".join(J.judge(small, a2))[:700],
@@ -143,9 +149,10 @@ def check(run):
         got = J.engine_choice(c, ans)
         run.case(("engine", json.dumps(J.case_json(c), sort_keys=True)) if got and any(g is not None for g in got) and any(g is None for g in got) else None)
         run.count("engine kind=%s nsrc=%d window=%s" % (c["kind"], len(c["sources"]), c["wname"]))
-        fails = J.judge_engine(c, ans)
+        fc = J.judge_engine_cat(c, ans)
+        fails = [m for _, m in fc]
         if fails:
-            cl = classes_of(c)
+            cl = classes_of(c, [k for k, _ in fc])
             run.count("engine_oracle_fail" + ("_known" if cl else ""))
             if cl:
                 n_known += 1
@@ -155,7 +162,8 @@ def check(run):
                 if n_eviol <= 2:
                     def still_e(cc):
                         a2 = harness.run_jsonl(binpath, [J.j_engine(cc)])[0]
-                        return bool(J.judge_engine(cc, a2)) and not classes_of(cc)
+                        f2 = J.judge_engine_cat(cc, a2)
+                        return bool(f2) and not classes_of(cc, [k for k, _ in f2])
                     cc = dict(c)
                     small = J.shrink(cc, still_e)
                     a2 = harness.run_jsonl(binpath, [J.j_engine(small)])[0]
@@ -184,11 +192,12 @@ def replay(run, path):
     if r.get("engine"):
         c["wname"] = r.get("wname", dict((w, n) for n, w in J.ENGINE_WINDOWS if n)[c["window"]])
         ans = harness.run_jsonl(os.path.join(bindir, "vp-join"), [J.j_engine(c)])[0]
-        fails = J.judge_engine(c, ans)
+        fc = J.judge_engine_cat(c, ans)
     else:
         ans = harness.run_jsonl(os.path.join(bindir, "vp-join"), [J.j_case(c)])[0]
-        fails = J.judge(c, ans)
+        fc = J.judge_cat(c, ans)
+    fails = [m for _, m in fc]
     run.case(("replay",), {"case": r["case"]})
     run.case(("replay2",))
     if fails:
-        run.violation("; ".join(fails)[:700], {"case": r["case"], "implementation": ans}, classes=classes_of(c))
+        run.violation("; ".join(fails)[:700], {"case": r["case"], "implementation": ans}, classes=classes_of(c, [k for k, _ in fc]))
